@@ -737,8 +737,8 @@ func (t *timeline) run() {
 		if exp.OK && !exp.Unchecked {
 			exp.Apply(m)
 			w.count("stmt_ok_" + s.Kind)
-			if s.Kind == KCreateDB && t.img == nil && (p.Knobs.BiasKey > 0 || p.Knobs.BiasLSN > 0) {
-				if err := w.BiasHeader(s.DB, p.Knobs.BiasKey, p.Knobs.BiasLSN); err != nil {
+			if s.Kind == KCreateDB && t.img == nil && (p.Knobs.BiasKey > 0 || p.Knobs.BiasLSN > 0 || p.Knobs.BiasOffset > 0) {
+				if err := w.BiasHeader(s.DB, p.Knobs.BiasKey, p.Knobs.BiasLSN, p.Knobs.BiasOffset); err != nil {
 					t.r.res.Harness = err.Error()
 					t.stop = true
 					break
